@@ -237,6 +237,7 @@ func cmdVerify(args []string) int {
 	assumed := fs.String("assumed", "/verif/contracts/assumed", "assumed contracts dir")
 	overlayF := fs.String("overlay", "", "JSON file {path: replacement path} applied to the load (self-test mutants)")
 	verbose := fs.Bool("v", false, "verbose")
+	lemmasOnly := fs.Bool("lemmas-only", false, "check only the lemmas of the property")
 	bounded := fs.Int("bounded", 0, "bounded concretisation: ignore loop specs, unroll every loop up to N iterations (failing-input search only)")
 	fs.Parse(args)
 
@@ -295,7 +296,10 @@ func cmdVerify(args []string) int {
 		}
 	}
 	sort.Strings(keys)
-	if len(keys) == 0 {
+	if *lemmasOnly {
+		keys = nil
+	}
+	if len(keys) == 0 && !*lemmasOnly {
 		fmt.Fprintln(os.Stderr, "ERROR: no units selected")
 		return 2
 	}
@@ -400,6 +404,58 @@ func cmdVerify(args []string) int {
 		ur.Probes = x.probes
 		ur.PureCalls = sortedKeys(x.pureCalls)
 		pend = append(pend, pending{x, ur, files, map[int]string{}})
+	}
+	// lemmas of the property: one pseudo-unit each
+	if *unitsF == "" && *bounded == 0 {
+		var lms []*Lemma
+		for _, pc := range db.Pkgs {
+			for _, lm := range pc.LemmaList {
+				if lm.Prop == *prop {
+					lms = append(lms, lm)
+				}
+			}
+		}
+		sort.Slice(lms, func(i, j int) bool { return lms[i].Ord < lms[j].Ord })
+		for _, lm := range lms {
+			sp := p.spkgs[lm.Pkg]
+			name := "lemma " + lm.Label
+			ur := &UnitResult{Unit: name, Func: name, Props: []string{lm.Prop}}
+			rr.Units = append(rr.Units, ur)
+			if sp == nil {
+				ur.Error = "contract-stale: package " + lm.Pkg + " of lemma " + lm.Label + " is not loaded"
+				exit = 2
+				continue
+			}
+			x := newExec(p, db, name)
+			x.useOpaque(lm.Pkg, lm.File)
+			x.pruner = newPruner()
+			var files []string
+			func() {
+				defer func() {
+					if r := recover(); r != nil {
+						if se, ok := r.(*SpecError); ok {
+							ur.Error = "contract-stale: lemma " + lm.Label + ": " + se.Msg
+							exit = 2
+							return
+						}
+						panic(r)
+					}
+				}()
+				x.proveLemma(lm, sp.Pkg)
+				dir := filepath.Join(*out, sanitize(name))
+				var err error
+				files, err = x.writeVCs(dir, sp.Pkg)
+				if err != nil {
+					ur.Error = err.Error()
+					exit = 2
+				}
+			}()
+			x.pruner.close()
+			if ur.Error != "" {
+				continue
+			}
+			pend = append(pend, pending{x, ur, files, map[int]string{}})
+		}
 	}
 	rr.GenS = time.Since(t1).Seconds()
 	t2 := time.Now()
@@ -541,7 +597,9 @@ func cmdVerify(args []string) int {
 					noret = noret || n == "noreturn"
 				}
 			}
-			if !noret {
+			// (a lemma has no paths: its vacuity guard is that base case and step are both
+			// non-trivial statements about spec functions, checked by the solvers like any goal)
+			if !noret && !strings.HasPrefix(ur.Unit, "lemma ") {
 				coverAny["return"] = true
 			}
 		}
